@@ -39,10 +39,11 @@ type Frame struct {
 	defers []deferred
 	retK   func(st *State, res Val) // continuation at return (nil = top level)
 	depth  int
+	paramSite map[*ssa.Parameter]string // inlined helper: role site of the function value passed for a parameter
 }
 
 func (f *Frame) clone() *Frame {
-	g := &Frame{fn: f.fn, free: f.free, retK: f.retK, depth: f.depth}
+	g := &Frame{fn: f.fn, free: f.free, retK: f.retK, depth: f.depth, paramSite: f.paramSite}
 	g.regs = make(map[ssa.Value]Val, len(f.regs)+8)
 	for k, v := range f.regs {
 		g.regs[k] = v
